@@ -5,7 +5,7 @@ use super::*;
 use super::super::hist::{audit_cache, conserved_contents, invoke, oracle_c01, in_cache, in_ruler_dir, table_path, history_dir};
 use super::super::model::{self, Outcome};
 use super::super::simsys::{World, Disk, CrashPoint};
-use super::super::scen::RULER_DIR;
+use super::super::scen::ruler_dir;
 
 fn file_class(path : &str, targets : &BTreeSet<String>) -> &'static str
 {
@@ -77,7 +77,7 @@ fn expected_outputs(m : &Result<model::ModelResult, model::GraphError>) -> BTree
 fn recover(case : &Case, rules : &[SRule], disk : &Disk, clock : u64, rsched : SchedSpec, whence : &str, prefix : &str, victim : usize, record : bool, continuation : bool, goal : Option<String>) -> (Vec<Violation>, Option<(Inv, Vec<CrashPoint>)>)
 {
     let mut vs = vec![];
-    let world = World::from_disk(case.knobs.clone(), RULER_DIR, disk.clone(), clock);
+    let world = World::from_disk(case.knobs.clone(), &ruler_dir(), disk.clone(), clock);
     let reader = { let d = disk.clone(); move |p : &str| d.read(p).map(|a| (*a).clone()) };
     let m = model::evaluate(rules, goal.as_ref().map(|s| s.as_str()), &reader);
     if record { world.start_crash_recording(); }
